@@ -278,9 +278,9 @@ func TestC10(t *testing.T) {
 	maxSites := 90
 	pairs := 0
 	if tier() == "thorough" {
-		// chains with up to 2,500 sites are enumerated exhaustively (the 2.0 families always are),
+		// chains with up to 1,800 sites are enumerated exhaustively (the short 2.0 families usually are),
 		// longer ones (legacy / timeline chains) by the stratified sample
-		maxSites = 2500
+		maxSites = 1800
 		pairs = 40
 	}
 	rapid.Check(t, func(rt *rapid.T) {
@@ -302,7 +302,13 @@ func TestC10(t *testing.T) {
 			}
 			todo = append(todo, s)
 		}
-		exhaustive := len(todo) <= maxSites
+		budget := maxSites
+		if tier() == "thorough" && (len(sc.Chain.Blocks) > 24 || sc.Chain.Tip-sc.Chain.Start > 40) {
+			// long chains (timeline, bank era, staking over several hundred heights): every site costs a
+			// full sync of the chain, so they get the stratified sample at a smaller budget
+			budget = 500
+		}
+		exhaustive := len(todo) <= budget
 		if !exhaustive {
 			// stratified sample without replacement: round-robin over site classes
 			// (upstream dblock/eblock/entry, SQL begin/exec/query/stmt-exec/commit),
@@ -319,11 +325,11 @@ func TestC10(t *testing.T) {
 			}
 			// classes stay in their (drawn) order of first appearance: when there are more classes
 			// than the budget, which ones are left out differs from chain to chain
-			pick := make([]faultSite, 0, maxSites)
-			for len(pick) < maxSites {
+			pick := make([]faultSite, 0, budget)
+			for len(pick) < budget {
 				progressed := false
 				for _, c := range classes {
-					if l := byClass[c]; len(l) > 0 && len(pick) < maxSites {
+					if l := byClass[c]; len(l) > 0 && len(pick) < budget {
 						pick = append(pick, l[0])
 						byClass[c] = l[1:]
 						progressed = true
